@@ -95,6 +95,12 @@ func bodyRestoredAsRead(r *R) {
 				return
 			}
 			fa, ok := st.Addr.(*ssa.FieldAddr)
+			if q, isParam := st.Addr.(*ssa.Parameter); !ok && isParam {
+				// a helper that restores through a pointer it was handed: the field is the one named at the call
+				if v, found := resolveParam(q); found {
+					fa, ok = v.(*ssa.FieldAddr)
+				}
+			}
 			if !ok {
 				return
 			}
